@@ -101,6 +101,16 @@ def check(tier, seed, replay=None):
                     vals = [None if (v is not None and any(ch in G.canonical(v).decode("utf-8") for ch in forbid if ch not in "\n\r\t")) else v for v in vals]
                 rows_in.append(("obj", [(PL.cps(FIELDS[k]), v) for k, v in enumerate(vals) if v is not None]))
                 rows.append([enc(v) if v is not None else {"t": "nothing"} for v in vals])
+            if rows_in and rnd.random() < 0.3:
+                # a row that is `=` to the one above it but printed differently (members in another order, an integer and the float next to it)
+                twin = rnd.choice([[("obj", [(PL.cps("x"), ("num", "1")), (PL.cps("y"), ("num", "2"))]), ("obj", [(PL.cps("y"), ("num", "2")), (PL.cps("x"), ("num", "1"))])],
+                                   [("arr", [("obj", [(PL.cps("a"), ("null",)), (PL.cps("b"), ("num", "1"))])]),
+                                                                                                     ("arr", [("obj", [(PL.cps("b"), ("num", "1")), (PL.cps("a"), ("null",))])])]])
+                col = rnd.randrange(n)
+                for t in twin:
+                    vals = [t if k == col else ("str", PL.cps("same")) for k in range(n)]
+                    rows_in.append(("obj", [(PL.cps(FIELDS[k]), v) for k, v in enumerate(vals)]))
+                    rows.append([enc(v) for v in vals])
             sel = ["--select=.%s =%s" % (FIELDS[k], names[k]) for k in range(n)]
             # a selection without `=name` is called by its own text, however long
             for k in range(n):
